@@ -851,6 +851,12 @@ func (r *raft) broadcastHeartbeatMessage() {
 	if r.readIndex.hasPendingRequest() {
 		ctx := r.readIndex.peepCtx()
 		r.broadcastHeartbeatMessageWithHint(ctx)
+		// heartbeats with a ReadIndex hint are only for voting members, nonVotings
+		// still rely on regular heartbeats to learn the commit index and to get
+		// their replication resumed
+		for id, rm := range r.nonVotings {
+			r.sendHeartbeatMessage(id, pb.SystemCtx{}, rm.match)
+		}
 	} else {
 		r.broadcastHeartbeatMessageWithHint(pb.SystemCtx{})
 	}
